@@ -121,8 +121,8 @@ CLAIMED = {
     "C22": {
         "category": "other",
         "design_ref": "DESIGN.md section 6, C22",
-        "technique": "Kani panic-freedom harnesses (automatic index / overflow / unwrap checks are the obligations) with unconstrained inputs on the real <ElfX86_64 as Arch>::new_relaxation + Relaxation::apply, RelocationKindInfo::write_to_buffer, the Divide/shift arms of evaluate_expression (extracted, shared with C16) and, bounded, ArchiveIterator over the object crate's archive parser",
-        "text": "A LIST OF INPUT-FACING FUNCTIONS, not 'any bytes supplied as objects' - the object crate's ELF parser, the winnow parsers, argument parsing and everything over Layout are not covered. CBMC proves no panic (index, slice, arithmetic overflow, unwrap) in: the x86-64 relaxation matcher and rewriter for every section content and every 64-bit relocation offset, inside or outside the section (complete); write_to_buffer for every value and buffer length (complete); linker-script division and shifts for all operand pairs (complete); In the thorough tier only (it does not finish within the quick budget and is reported undecided when it does not): archive member iteration over the object crate's parser for single-member archives of at most 72 bytes. Two defects were repaired (one found by the relaxation obligation, one shown natively with a truncated archive).",
+        "technique": "Kani panic-freedom harnesses (automatic index / overflow / unwrap checks are the obligations) with unconstrained inputs on the real <ElfX86_64 as Arch>::new_relaxation + Relaxation::apply, RelocationKindInfo::write_to_buffer, <SymtabEntry as platform::Symbol>::*, the Divide/shift arms of evaluate_expression (extracted, shared with C16) and, bounded, ArchiveIterator over the object crate's archive parser",
+        "text": "A LIST OF INPUT-FACING FUNCTIONS, not 'any bytes supplied as objects' - the object crate's ELF parser, the winnow parsers, argument parsing and everything over Layout are not covered. CBMC proves no panic (index, slice, arithmetic overflow, unwrap) in: the x86-64 relaxation matcher and rewriter for every section content and every 64-bit relocation offset, inside or outside the section (complete); write_to_buffer for every value and buffer length (complete); linker-script division and shifts for all operand pairs (complete); every query wild makes on an input symbol-table entry, all 24 bytes symbolic, with COMMON symbols decoded exactly (complete); In the thorough tier only (it does not finish within the quick budget and is reported undecided when it does not): archive member iteration over the object crate's parser for single-member archives of at most 72 bytes. Three defects were repaired (relaxation offsets, a truncated archive member shown natively, a COMMON symbol whose aligned size overflows).",
         "note": "Assumed: the relocation type reaching new_relaxation is one the x86-64 table accepts (the caller bails out first); archive bytes start with the magic; format/backtrace/cpuid stubs on error paths. AArch64/RISC-V/LoongArch relaxation code is not covered (AArch64's debug_assert! on instruction bytes is by design).",
     },
     "C30": {
@@ -142,9 +142,9 @@ CLAIMED = {
     "C31": {
         "category": "proof",
         "design_ref": "DESIGN.md section 6, C31",
-        "technique": "Kani full-domain harnesses on the real elf::convert_elf_visibility and layout::can_export_symbol::<Elf> (GraphResources/SymbolDb as nondeterministic storage) for every st_info / st_other / st_shndx / ValueFlags value",
-        "text": "DYNAMIC-EXPORT PREDICATE ONLY - which symbols reach it, .symtab contents and ordering, values/sizes/types, imports and --export-list matching are not decided. For every symbol-table entry and every flag value CBMC proves on the real code that a definition is given a .dynsym entry exactly when it is defined, non-local, of default or protected visibility, the canonical definition of its name and not demoted to local, and that hidden and internal symbols are never exported. Loop-free predicate over a finite domain: a proof.",
-        "note": "Trusted: gABI visibility rules. Assumed: no --export-list (its lookup runs over hashbrown). DOWNGRADE_TO_LOCAL (set by --exclude-libs / version scripts) is an input flag here; should_downgrade_to_local is not checked. One defect found and repaired (STV_INTERNAL treated as default visibility).",
+        "technique": "Kani full-domain harnesses on the real elf::convert_elf_visibility and layout::can_export_symbol::<Elf> (GraphResources/SymbolDb as nondeterministic storage) for every st_info / st_other / st_shndx / ValueFlags value; and on the export-gate statements cut out of ObjectLayoutState::activate on every run (Route S, rule X10) together with InputRef::has_archive_semantics and OutputKind::needs_dynsym",
+        "text": "DYNAMIC-EXPORT PREDICATE AND EXPORT GATE ONLY - .symtab contents and ordering, values/sizes/types, imports, export requests from shared libraries and --export-list matching are not decided. For every symbol-table entry and every flag value CBMC proves on the real code that a definition is given a .dynsym entry exactly when it is defined, non-local, of default or protected visibility, the canonical definition of its name and not demoted to local, and that hidden and internal symbols are never exported. For every output kind, --export-dynamic setting, dynamic list present or absent and kind of input it proves on the statements extracted from activate that an object of a library excluded by --exclude-libs is never offered for export, and that every other object is offered exactly as GNU ld does (everything non-hidden in a shared object or with --export-dynamic, listed symbols only with just a dynamic list). Loop-free predicates over finite domains: a proof.",
+        "note": "Trusted: gABI visibility rules. Assumed: no --export-list (its lookup runs over hashbrown). DOWNGRADE_TO_LOCAL (set by version scripts / PROVIDE_HIDDEN) is an input flag here; should_downgrade_to_local is not checked. The gate's stand-ins answer should_export_dynamic / should_export_all_dynamic_symbols symbolically (the HashSet lookup behind --exclude-libs=name is not executed). Two defects found and repaired (STV_INTERNAL treated as default visibility; --exclude-libs ignored with --export-dynamic / dynamic lists).",
     },
 }
 
